@@ -79,6 +79,19 @@ def blocking_calls(ctx, f):
                 to = c.args[3] if len(c.args) > 3 else None
                 if to is None or astq.const_value(to, 'x') != 0:
                     out.append((n, c, 'select.select with a non-zero/None timeout blocks'))
+            elif last == 'poll' and isinstance(c.func, ast.Attribute):
+                # poll()/epoll()/zmq Poller objects: poll() without a zero timeout waits
+                from sa.dataflow import reaching_defs
+                rd_ = reaching_defs(ctx, f)
+                recv_alts = [a.text() for a in rd_.expand(n, c.func.value)]
+                is_poller = any(('select.poll(' in t_ or 'select.epoll(' in t_ or
+                                 'select.devpoll(' in t_ or 'select.kqueue(' in t_ or
+                                 'Poller(' in t_) for t_ in recv_alts)
+                if is_poller:
+                    to = c.args[0] if c.args else astq.kwarg(c, 'timeout')
+                    if to is None or astq.const_value(to, 'x') != 0:
+                        out.append((n, c, 'poll() on a poller object without a zero timeout '
+                                          'blocks until a descriptor is ready'))
             elif last == 'join' and isinstance(c.func, ast.Attribute) and not c.args \
                     and not c.keywords:
                 out.append((n, c, 'Thread.join blocks'))
